@@ -142,13 +142,22 @@ KindOfName(op, n) ==
 \* user resolvers behind a root field, as the harness logs them: [kind, name]
 OpResolverKind(op) == op
 Entry(k, n) == [kind |-> k, name |-> n]
-ResolversOf(op, kind) ==
+\* top: the resolver of the root field itself; below: resolvers of the fields selected below it
+TopResolver(op, kind) ==
   LET root == RootName(op) IN
   CASE kind = "ordinary"  -> {Entry(OpResolverKind(op), root \o "." \o OrdinaryOf(root))}
-    [] kind = "nested"    -> {Entry(OpResolverKind(op), root \o "." \o NestedOf(root)),
-                              Entry("nested", NestedType(root) \o "." \o OrdinaryOf(NestedType(root)))}
-    [] kind = "_entities" -> {Entry("entity", TS.entity.type), Entry("nested", TS.entity.type \o "." \o TS.entity.field)}
+    [] kind = "nested"    -> {Entry(OpResolverKind(op), root \o "." \o NestedOf(root))}
+    [] kind = "_entities" -> {Entry("entity", TS.entity.type)}
     [] OTHER -> {}
+BelowResolvers(op, kind) ==
+  LET root == RootName(op) IN
+  CASE kind = "nested"    -> {Entry("nested", NestedType(root) \o "." \o OrdinaryOf(NestedType(root)))}
+    [] kind = "_entities" -> {Entry("nested", TS.entity.type \o "." \o TS.entity.field)}
+    [] OTHER -> {}
+\* Below the root the dynamic executor applies its IntrospectionOnly check again (collect_fields answers null), so a
+\* root resolver that runs by deviation does not drag the resolvers below it along.
+ResolversOf(x, kind) ==
+  TopResolver(x.op, kind) \cup (IF ResolversAllowed(x.s, x.r) THEN BelowResolvers(x.op, kind) ELSE {})
 
 ----------------------------------------------------------------------------
 (* Implementation-shaped model: the outcome of one root field.                                      *)
@@ -226,7 +235,7 @@ Outcomes(x, doc, ef, dev) ==
 
 \* Upper bounds used to decide whether an observation is explained by a set of deviations:
 MayServeO(o) == {o[i].key : i \in {j \in 1..Len(o) : o[j].out = "meta"}}
-MayInvokeO(x, o) == UNION {ResolversOf(x.op, o[i].kind) : i \in {j \in 1..Len(o) : o[j].out = "resolve"}}
+MayInvokeO(x, o) == UNION {ResolversOf(x, o[i].kind) : i \in {j \in 1..Len(o) : o[j].out = "resolve"}}
 
 \* Exact prediction (drift run): nothing happens when validation rejects the request; otherwise every root
 \* field is treated on its own (a refused static field is answered with null, Ok(None) in resolve_field).
